@@ -14,7 +14,7 @@ import (
 )
 
 func init() {
-	for _, id := range []string{"C01", "C02", "C03", "C04", "C05", "C06", "C07", "C08", "C09", "C10", "C13"} {
+	for _, id := range []string{"C01", "C02", "C03", "C04", "C05", "C06", "C07", "C08", "C09", "C10", "C12", "C13"} {
 		id := id
 		core.Register(id, "model_checking", func(c *core.Ctx) error { return runTL1(c, id) })
 	}
@@ -87,6 +87,7 @@ type valPayload struct {
 	Small  bool   `json:"small"`
 	Orig2  bool   `json:"origin2"`
 	NegZ   bool   `json:"negzero"`
+	TL2Opt bool   `json:"tl2opt"`
 	HasTL2 bool   `json:"hastl2"`
 	TL2    []int  `json:"tl2"`
 	JSON   *JT    `json:"json"`
@@ -106,6 +107,7 @@ type valPayload struct {
 	Dec    struct {
 		OK       bool  `json:"ok"`
 		Unk      bool  `json:"unk"`
+		Big      bool  `json:"big"`
 		Consumed int   `json:"consumed"`
 		Re       []int `json:"re"`
 	} `json:"dec"`
@@ -147,6 +149,9 @@ func runTL1(c *core.Ctx, prop string) error {
 	}
 	if prop == "C07" {
 		k, kfn = c.Pick(1, 2), c.Pick(2, 3)
+	}
+	if prop == "C12" {
+		k, kmut = c.Pick(2, 2), c.Pick(1, 2)
 	}
 	if prop == "C02" {
 		k, kmut = c.Pick(1, 2), c.Pick(2, 3)
@@ -190,6 +195,13 @@ func runCorpusTL1(c *core.Ctx, prop string, cp Corpus, k, kmut, kjson, kre, kmut
 		return nil
 	}
 	c.Logf("corpus %s: %d top-level TL1 types, K=%d KMut=%d", cp.Name, len(tops), k, kmut)
+	var otf *core.Proc
+	if prop == "C12" {
+		if otf, err = startOTF(c, cp); err != nil {
+			return err
+		}
+		defer otf.Close()
+	}
 	var firstErr error
 	nVal, nBytes, nAlt, nEdge, nRe, nFn, acc, rej, unk := 0, 0, 0, 0, 0, 0, 0, 0, 0
 	onEmit := func(raw json.RawMessage) {
@@ -199,6 +211,19 @@ func runCorpusTL1(c *core.Ctx, prop string, cp Corpus, k, kmut, kjson, kre, kmut
 		var p valPayload
 		if err := json.Unmarshal(raw, &p); err != nil {
 			firstErr = err
+			return
+		}
+		if prop == "C12" {
+			replayOTF(c, otf, cp, &p)
+			switch p.Kind {
+			case "val":
+				nVal++
+				if nVal%307 == 1 {
+					c.Sample(map[string]any{"corpus": cp.Name, "type": p.Tn, "tl1": hexs(p.TL1), "tl2": hexs(p.TL2)})
+				}
+			case "bytes":
+				nBytes++
+			}
 			return
 		}
 		if prop == "C08" {
